@@ -315,7 +315,10 @@ class ArgumentUnslicer(slicer.ScopedUnslicer):
         if self.argname is None:
             # this token is the name of a keyword argument
             assert ready_deferred is None
-            self.argname = six.ensure_str(token)
+            try:
+                self.argname = six.ensure_str(token)
+            except UnicodeDecodeError:
+                raise Violation("keyword argument name is not UTF-8")
             # if the argname is invalid, this may raise Violation
             ms = self.methodSchema
             if ms:
@@ -516,7 +519,10 @@ class CallUnslicer(slicer.ScopedUnslicer):
                     raise Violation(why)
                 return
 
-            self.methodname = six.ensure_str(token)
+            try:
+                self.methodname = six.ensure_str(token)
+            except UnicodeDecodeError:
+                raise Violation("method name is not UTF-8")
 
             if self.interface:
                 # they are calling an interface+method pair
